@@ -17,6 +17,11 @@
 //     the object is being built;
 //  7. a read inside a function literal of a field that the enclosing function wrote before the literal is
 //     ordered by the go statement and is not recorded;
+//  8. lock events (-> coq/gen/LockOrder.v): every Lock/RLock is an Acq event with the lock classes held just before
+//     it; every call of a function of the same package is a Call event with the locks held; a channel send or
+//     receive is a Block event unless it is a case of a select that has a default clause; a function literal is
+//     a pseudo-function <fn>$lit entered with no locks (go statements and deferred closures); lock and unlock
+//     of one critical section are assumed to be in the same function (true of gokrb5);
 //  5. functions named New*/new* (constructors: the object is not shared yet), methods named JSON/String on
 //     config types while parsing, and files guarded by the verif build tag are skipped.
 package main
@@ -44,7 +49,14 @@ type access struct {
 var fset = token.NewFileSet()
 var imp = importer.ForCompiler(fset, "source", nil)
 
+type lockEvent struct {
+	kind       string // Acq, Call, Block
+	fn, target string
+	held       []string
+}
+
 type pkgWork struct {
+	events  []lockEvent
 	name    string
 	files   []*ast.File
 	info    *types.Info
@@ -146,6 +158,47 @@ func copyLocks(m map[string]bool) map[string]bool {
 	return o
 }
 
+func heldList(m map[string]bool) []string {
+	var o []string
+	for k := range m {
+		o = append(o, k)
+	}
+	sort.Strings(o)
+	return o
+}
+
+// nonBlockingComms collects the communication statements of selects that have a default clause.
+func nonBlockingComms(body ast.Node) map[ast.Node]bool {
+	out := map[ast.Node]bool{}
+	ast.Inspect(body, func(n ast.Node) bool {
+		sel, ok := n.(*ast.SelectStmt)
+		if !ok {
+			return true
+		}
+		hasDefault := false
+		for _, c := range sel.Body.List {
+			if cc, ok := c.(*ast.CommClause); ok && cc.Comm == nil {
+				hasDefault = true
+			}
+		}
+		if hasDefault {
+			for _, c := range sel.Body.List {
+				if cc, ok := c.(*ast.CommClause); ok && cc.Comm != nil {
+					ast.Inspect(cc.Comm, func(m ast.Node) bool {
+						switch m.(type) {
+						case *ast.SendStmt, *ast.UnaryExpr:
+							out[m] = true
+						}
+						return true
+					})
+				}
+			}
+		}
+		return true
+	})
+	return out
+}
+
 func fnName(fd *ast.FuncDecl) string {
 	if fd.Recv != nil && len(fd.Recv.List) > 0 {
 		switch rt := fd.Recv.List[0].Type.(type) {
@@ -198,6 +251,13 @@ func (w *pkgWork) walkFunc(fn string, body *ast.BlockStmt, held map[string]bool)
 	writes := map[*ast.SelectorExpr]bool{}
 	writtenHere := map[string]bool{} // fields written so far in this function (rule 7)
 	inLit := 0
+	nonBlocking := nonBlockingComms(body)
+	evFn := func() string {
+		if inLit > 0 {
+			return fn + "$lit"
+		}
+		return fn
+	}
 	var walk func(n ast.Node, held map[string]bool)
 	markLHS := func(e ast.Expr) {
 		sels := baseSel(e)
@@ -221,6 +281,14 @@ func (w *pkgWork) walkFunc(fn string, body *ast.BlockStmt, held map[string]bool)
 				}
 			case *ast.IncDecStmt:
 				markLHS(x.X)
+			case *ast.SendStmt:
+				if !nonBlocking[x] {
+					w.events = append(w.events, lockEvent{"Block", evFn(), "send", heldList(held)})
+				}
+			case *ast.UnaryExpr:
+				if x.Op == token.ARROW && !nonBlocking[x] {
+					w.events = append(w.events, lockEvent{"Block", evFn(), "receive", heldList(held)})
+				}
 			case *ast.DeferStmt:
 				if se, ok := x.Call.Fun.(*ast.SelectorExpr); ok && (se.Sel.Name == "Unlock" || se.Sel.Name == "RUnlock") {
 					return false // stays held to the end of the function
@@ -237,8 +305,10 @@ func (w *pkgWork) walkFunc(fn string, body *ast.BlockStmt, held map[string]bool)
 							if f, ok := w.fieldOf(mse); ok {
 								switch se.Sel.Name {
 								case "Lock":
+									w.events = append(w.events, lockEvent{"Acq", evFn(), f, heldList(held)})
 									held[f] = true
 								case "RLock":
+									w.events = append(w.events, lockEvent{"Acq", evFn(), f, heldList(held)})
 									if !held[f] {
 										held[f] = false
 									}
@@ -259,6 +329,7 @@ func (w *pkgWork) walkFunc(fn string, body *ast.BlockStmt, held map[string]bool)
 								}
 							}
 							w.callers[name] = append(w.callers[name], copyLocks(held))
+							w.events = append(w.events, lockEvent{"Call", evFn(), name, heldList(held)})
 						}
 					}
 				}
@@ -266,6 +337,7 @@ func (w *pkgWork) walkFunc(fn string, body *ast.BlockStmt, held map[string]bool)
 					if obj, ok := w.info.Uses[id]; ok {
 						if f, ok := obj.(*types.Func); ok && f.Pkg() != nil && f.Pkg().Name() == w.name {
 							w.callers[f.Name()] = append(w.callers[f.Name()], copyLocks(held))
+							w.events = append(w.events, lockEvent{"Call", evFn(), f.Name(), heldList(held)})
 						}
 					}
 				}
@@ -361,9 +433,26 @@ func main() {
 	flag.Parse()
 	os.Chdir(*repo)
 	var all []access
+	var evLines []string
+	evSeen := map[string]bool{}
 	for _, p := range [][]string{{"client", "Client", "Settings"}, {"config", "Config", "Realm", "LibDefaults"}, {"service"}} {
 		w := load(filepath.Join(*repo, p[0]), p[1:])
 		w.run()
+		for _, e := range w.events {
+			var hs []string
+			for _, h := range e.held {
+				hs = append(hs, fmt.Sprintf("\"%s.%s\"", p[0], h))
+			}
+			tgt := e.target
+			if e.kind != "Block" {
+				tgt = p[0] + "." + tgt
+			}
+			l := fmt.Sprintf("%s \"%s.%s\" \"%s\" [%s]", e.kind, p[0], e.fn, tgt, strings.Join(hs, "; "))
+			if !evSeen[l] {
+				evSeen[l] = true
+				evLines = append(evLines, l)
+			}
+		}
 		for _, a := range w.acc {
 			a.fn = p[0] + "." + a.fn
 			a.field = p[0] + "." + a.field
@@ -396,4 +485,9 @@ func main() {
 	b.WriteString("Definition gen_accesses : list access :=\n  [" + strings.Join(lines, ";\n   ") + "].\n")
 	os.MkdirAll(*out, 0o755)
 	os.WriteFile(filepath.Join(*out, "Access.v"), []byte(b.String()), 0o644)
+	sort.Strings(evLines)
+	var c strings.Builder
+	c.WriteString("(* GENERATED by harness/cmd/genaccess from /repo/v8 source (go/types). Do not edit. *)\nFrom Coq Require Import String List.\nImport ListNotations.\nFrom Gokrb5.model Require Import LockOrder.\nOpen Scope string_scope.\n\n")
+	c.WriteString("Definition gen_lock_events : list lev :=\n  [" + strings.Join(evLines, ";\n   ") + "].\n")
+	os.WriteFile(filepath.Join(*out, "LockEvents.v"), []byte(c.String()), 0o644)
 }
